@@ -116,6 +116,9 @@ Definition run (req : sexp) : sexp :=
   (* specification: the producer's answer to the n-th Interest [rq] *)
   | SList [SNum 4; s; q; n] =>
       or_bad (odo sc <- as_scenario s ;; odo rq <- as_req q ;; odo k <- as_nat n ;; Some (s_resp (oracle_of sc rq k)))
+  (* specification: the Interests the producer must see *)
+  | SList [SNum 7; c; s] =>
+      or_bad (odo cfg <- as_cfg c ;; odo sc <- as_scenario s ;; Some (s_list s_req (expected_asks sc cfg)))
   (* helpers *)
   | SList [SNum 5; i] => or_bad (odo k <- as_nat i ;; Some (SBytes (seg_comp k)))
   | SList [SNum 6; n] => or_bad (odo k <- as_num n ;; Some (s_res SBytes (comp_from_segment k)))
